@@ -206,3 +206,33 @@ func (s *Snapshot) Summary() []string {
 	}
 	return out
 }
+
+// Detail renders every goroutine with its SDK frames (innermost first, up to four), for diagnosing a stall.
+func (s *Snapshot) Detail() []string {
+	var out []string
+	for _, g := range s.others {
+		var frames []string
+		for _, f := range g.Funcs {
+			if strings.Contains(f, "pluginsdk/") && !strings.HasPrefix(f, "created-by:") {
+				f = strings.TrimPrefix(f, "go.flow.arcalot.io/pluginsdk/")
+				if i := strings.Index(f, "("); i > 0 && strings.HasSuffix(f, ")") && !strings.HasPrefix(f, "atp.(") && !strings.HasPrefix(f, "schema.(") {
+					f = f[:i]
+				}
+				frames = append(frames, f)
+				if len(frames) == 4 {
+					break
+				}
+			}
+		}
+		if len(frames) == 0 {
+			for _, f := range g.Funcs {
+				if strings.Contains(f, "verif/") {
+					frames = append(frames, f)
+					break
+				}
+			}
+		}
+		out = append(out, g.State+" @ "+strings.Join(frames, " < "))
+	}
+	return out
+}
